@@ -341,9 +341,41 @@ CLAIMED["C17"] = dict(
               "sanitizers; TLC trace validation of every execution against the format specification",
     design="I.3/C17")
 
+CLAIMED["C10"] = dict(
+    text="The text input formats are the specification: TextFormats.tla reads, byte by byte, the FSG text format, the "
+         "pronunciation dictionary, JSON configuration strings (RFC 8259 acceptor of JsonSyntax + the typed parameter "
+         "table), alignment text, a word/pronunciation pair and the CMN text, and returns a three-valued verdict (valid "
+         "with the abstract value it denotes / no conforming reader can make an object of it / the documentation does not "
+         "say) plus the list of fields it consumed; TextDamage.tla derives the damages from that field list (truncation at "
+         "every byte, field and line deletion / duplication / swap, every number replaced by 20 edge texts such as 1e999, "
+         "twenty nines, -1, NaN, 2^31, 2^32+1, hostile bytes incl. NUL / 0xFF / ESC at every field, CR-LF, no final "
+         "newline, long fields of 300 / 5000 / 70000 bytes and nesting 200 / 100000 deep as descriptions); TLC enumerates "
+         "all 5767 (instance, damage) cases of 19 instances, checks eleven theorems about the readers (instances valid and "
+         "read to the last field, truncated FSG never valid, out-of-range numbers never valid, ...) and exports the cases. "
+         "Each case runs in its own forked child of the real library under ASan + UBSan + LSan with assertions on, files "
+         "served from a heap block of exactly the file's length, through the public entry point of its format "
+         "(fsg_model_readfile, dict_init, config_parse_json, decoder_set_align_text, decoder_add_word, decoder_set_cmn, "
+         "decoder_set_jsgf_string); the returned object is dumped through public accessors, USED (grammar written out, set "
+         "in a decoder and decoded with; dictionary looked up; configuration read back and serialised) and freed; the "
+         "parent records how the child ended (ok / exit / abort / signal / sanitizer / time-out, time-outs re-run alone). "
+         "TextTrace.tla re-reads the recorded bytes with the same readers and checks: ended-normally, valid-accepted and "
+         "valid-value (a valid input yields an object equal to the specification's value - what binds the format "
+         "specification to the code), well-formed (whatever object is returned for any input satisfies its type "
+         "invariant), used-and-freed. 400 seeded unstructured byte strings per run go through the same clauses.",
+    note="A failure return is always accepted for damaged input (the property allows both outcomes); 'invalid' verdicts "
+         "are notes only. Where the documentation is silent the verdict is 'unknown' and only the safety clauses apply "
+         "(relaxed key:value configuration, keyword prefixes, non-printable bytes). Alignment text and JSGF have no value "
+         "binding here (JSGF semantics is C05). Leaks are notes here (C09's subject). Memory errors, exits and hangs are "
+         "observed by the sanitizers and the parent process, not by TLC; the specification contributes the inputs, the "
+         "verdicts and the value / type-invariant oracles. Six genuine defects found and repaired (fix: 4495711 a661e87 "
+         "81ef972 a39c4f3 6398584 da63213). Inputs longer than 700 bytes get no verdict; only the en-us model; "
+         "jsgf_parse_file / imports, filler dictionaries and config_set_str outside JSON are not covered.",
+    technique="TLA+ byte-level specification of the input formats with exhaustive damage derivation checked by TLC "
+              "(TextInit); one forked sanitizer-instrumented child of the real library per exported case; TLC trace "
+              "validation (TextTrace) of every recorded execution against the format readers",
+    design="I.3/C10")
+
 NOT_APPLICABLE = {
-    "C10": "arbitrary-byte input safety: the oracle is memory safety/termination on unstructured bytes, which a TLA+ "
-           "state machine can neither enumerate nor observe (DESIGN.md section 6)",
     "C18": "finiteness/range of floating-point signal processing values; TLC has no reals and the property is about "
            "numeric values, not state or order (DESIGN.md section 6)",
 }
